@@ -78,6 +78,9 @@ impl<'a, TPrinter: Printer> FileExecutor<'a, TPrinter> {
 
         for reader in std::mem::take(&mut self.readers).into_iter() {
             for line in reader.lines() {
+                #[cfg(feature = "verif_hooks")]
+                crate::helpers::verif_hooks::on_line("batch");
+
                 if !self.running.load(Ordering::SeqCst) {
                     break;
                 }
